@@ -9,3 +9,5 @@ stats, traces = fuzzlib.whole_runs([rainfall_partition, root_zone_water], 8, see
 for s in stats.values():
     print(s.as_dict())
 print([(t.scen["id"], t.n_steps, t.error) for t in traces])
+for L in (rainfall_partition, root_zone_water):
+    print(fuzzlib.direct_fuzz(L, 2000, seed=3).as_dict())
